@@ -332,7 +332,14 @@ void dispatchArgs(GenState &gs, Node *c) {
   }
 
   gs.getSymbols().argnum++;
-  gs.getSymbols().fetchVariableRegister(std::string(c->tok));
+  RegisterIndex reg =
+      gs.getSymbols().fetchVariableRegister(std::string(c->tok));
+  // every parameter needs a register of its own: a repeated name would leave
+  // the frame smaller than the argument count the call sequence uses
+  if (reg != gs.getSymbols().argnum - 1)
+    gs.verr(CodegenResult::Error::Type::PARSE_ERROR,
+            "parameter '" + c->tok + "' is declared more than once", c->file,
+            c->line);
 }
 
 // dispatch a function definition
